@@ -1,48 +1,47 @@
     use crate::verif_support::*;
-    use alloc::rc::Rc;
 
-    struct CurInfo { id: u8, code: String, symbol: String }
-    struct RateTable { rates: [Option<f64>; 2] }
-    impl RateTable { fn get(&self, c: &Rc<CurInfo>) -> Option<&f64> { self.rates[c.id as usize].as_ref() } }
+    struct RateTable { from_rate: Option<f64>, to_rate: Option<f64> }
     struct Cfg { currency_rate: RateTable }
-    struct M(f64, Rc<CurInfo>);
-    impl M { fn get_currency(&self) -> Rc<CurInfo> { self.1.clone() } fn get_price(&self) -> f64 { self.0 } }
+    #[derive(Clone, Copy, PartialEq)] enum Cur { From, To }
+    impl RateTable { fn get(&self, c: &Cur) -> Option<&f64> { match c { Cur::From => self.from_rate.as_ref(), Cur::To => self.to_rate.as_ref() } } }
+    struct M { price: f64 }
+    impl M { fn get_currency(&self) -> Cur { Cur::From } fn get_price(&self) -> f64 { self.price } }
 
-    fn slice_convert(config: &Cfg, money: &M, to_currency: Rc<CurInfo>) -> core::result::Result<f64, String> {
+    fn slice_convert(config: &Cfg, money: &M, to_currency: Cur) -> core::result::Result<f64, String> {
         let as_usd = /*@SLICE convert_money.as_usd*/;
         let calculated_price = /*@SLICE convert_money.calculated_price*/;
         Ok(calculated_price)
     }
 
-    // C06: 'X <from> to <to>' multiplies by rate(to)/rate(from): div(price, rate(from)) * rate(to);
-    // a currency without a rate is an error value
+    // C06: 'X <from> to <to>' multiplies by rate(to)/rate(from): div(price, rate(from)) * rate(to)
     #[kani::proof]
     #[kani::stub(crate::tools::do_divition, crate::verif_support::div_probe)]
     fn convert_money_formula() {
         let price: f64 = kani::any();
         let rf: f64 = kani::any();
         let rt: f64 = kani::any();
+        let cfg = Cfg { currency_rate: RateTable { from_rate: Some(rf), to_rate: Some(rt) } };
+        let got = slice_convert(&cfg, &M { price }, Cur::To);
+        assert!(got.is_ok(), "OBL:conversion_defined_when_both_rates_exist");
+        let got = match got { Ok(g) => g, Err(e) => { core::mem::forget(e); 0.0 } };
+        if div_calls() == 0 {
+            assert!(same_f64(got, spec_div(price, rf) * rt), "OBL:price_over_source_rate_times_target_rate");
+        } else {
+            assert!(div_calls() == 1 && div_was(0, price, rf), "OBL:divides_price_by_source_rate");
+            assert!(same_f64(got, div_call(0).2 * rt), "OBL:price_over_source_rate_times_target_rate");
+        }
+    }
+
+    // a currency without a rate is an error value
+    #[kani::proof]
+    #[kani::stub(crate::tools::do_divition, crate::verif_support::div_probe)]
+    #[kani::unwind(40)]
+    fn convert_money_missing_rate() {
         let has_f: bool = kani::any();
         let has_t: bool = kani::any();
-        let cfg = Cfg { currency_rate: RateTable { rates: [if has_f { Some(rf) } else { None }, if has_t { Some(rt) } else { None }] } };
-        // the source is USD itself or another currency (the rate table, not the code, decides the factor)
-        let from_usd: bool = kani::any();
-        let from = Rc::new(CurInfo { id: 0, code: if from_usd { "USD".to_string() } else { "TRY".to_string() }, symbol: "$".to_string() });
-        let to = Rc::new(CurInfo { id: 1, code: "EUR".to_string(), symbol: "e".to_string() });
-        let money = M(price, from.clone());
-        let got = slice_convert(&cfg, &money, to.clone());
-        kani::cover!(from_usd && has_f && has_t, "COVER:source_is_usd");
-        if !has_f || !has_t {
-            assert!(got.is_err(), "OBL:missing_rate_is_an_error_value");
-        } else {
-            assert!(got.is_ok(), "OBL:conversion_defined_when_both_rates_exist");
-            let got = got.unwrap();
-            if div_calls() == 0 {
-                assert!(same_f64(got, spec_div(price, rf) * rt), "OBL:price_over_source_rate_times_target_rate");
-            } else {
-                assert!(div_calls() == 1 && div_was(0, price, rf), "OBL:divides_price_by_source_rate");
-                assert!(same_f64(got, div_call(0).2 * rt), "OBL:price_over_source_rate_times_target_rate");
-            }
-        }
-        core::mem::forget(cfg); core::mem::forget(money); core::mem::forget(from); core::mem::forget(to);
+        kani::assume(!has_f || !has_t);
+        let cfg = Cfg { currency_rate: RateTable { from_rate: if has_f { Some(kani::any()) } else { None }, to_rate: if has_t { Some(kani::any()) } else { None } } };
+        let got = slice_convert(&cfg, &M { price: kani::any() }, Cur::To);
+        assert!(got.is_err(), "OBL:missing_rate_is_an_error_value");
+        core::mem::forget(got);
     }
